@@ -205,7 +205,7 @@ class Index:
                 if "property" in decos:
                     fi = FuncInfo(item.name, item, m, c, "getter", decos)
                     c.props[item.name] = PropInfo(item.name, fi, None, c)
-                elif any(d.split("(")[0].endswith("cached_property") for d in decos):
+                elif any(d.endswith("cached_property") or d.split("(")[0].endswith("cached_property") for d in decos):
                     fi = FuncInfo(item.name, item, m, c, "cached", decos)
                     c.props[item.name] = PropInfo(item.name, fi, None, c, cached=True)
                 elif any(d.endswith(".setter") for d in decos):
